@@ -560,6 +560,19 @@ struct HeapEngine : Engine {
     void run_step(const Step& s, int stepno) {
         if (s.num("y") & 1) yield_point("op_start");
         if (aborted || rr->v.set) return;
+        // Anything the harness itself touches during a step is storage AVEL handed out (live blocks, container contents).  If
+        // that faults - e.g. a block recycled from hidden allocator state that outlived the heap it came from - it is a violation
+        // ("stays valid until passed to deallocate"), not a harness crash.
+        sigjmp_buf jb; sigjmp_buf* prev = tl_jmp;
+        if (sigsetjmp(jb, 1) != 0) {
+            tl_jmp = prev; tl_ctx = nullptr;
+            char d[200]; std::snprintf(d, sizeof d, "storage obtained from allocate() is not accessible: %s fault at %p while the caller used or verified a live allocation during '%s'", tl_fault_write ? "write" : "read", (void*)tl_fault_addr, s.op.c_str());
+            rr->violate("C18", stepno, {"C18", "live_storage_inaccessible", s.op[0] == 'v' || s.op[0] == 'l' ? "container" : s.op, impl}, d);
+            rr->log.linef("%d %s FAULT in caller code: %s", stepno, s.op.c_str(), d);
+            aborted = true; return;
+        }
+        tl_jmp = &jb;
+        struct Restore { sigjmp_buf* p; ~Restore() { tl_jmp = p; } } restore_{prev};
         if (s.op == "alloc") do_alloc(s, stepno);
         else if (s.op == "dealloc") do_dealloc(s, stepno);
         else if (s.op == "write") do_write(s, stepno);
@@ -609,8 +622,8 @@ struct HeapEngine : Engine {
         // implicit epilogue: release everything, then the heap must be empty (no leak on any path)
         if (!aborted && !r.v.set && r.harness_error.empty()) {
             tl_task = 0; int ep = (int)pl.steps.size(); Step e; e.op = "epilogue"; int saved = ntasks; ntasks = 1;
-            while (!conts.empty() && !aborted) { Step d = e; d.op = conts.back()->kind == 'v' ? "vdel" : "ldel"; d.setu("c", conts.size() - 1); do_cont(d, ep); }
-            while (!pool.empty() && !aborted) { Step d = e; d.op = "dealloc"; d.setu("ref", pool.size() - 1); do_dealloc(d, ep); }
+            while (!conts.empty() && !aborted && !r.v.set) { Step d = e; d.op = conts.back()->kind == 'v' ? "vdel" : "ldel"; d.setu("c", conts.size() - 1); d.set("y", 0); run_step(d, ep); }
+            while (!pool.empty() && !aborted && !r.v.set) { Step d = e; d.op = "dealloc"; d.setu("ref", pool.size() - 1); d.set("y", 0); run_step(d, ep); }
             ntasks = saved; tl_task = -1;
             if (!aborted && !r.v.set) {
                 std::size_t live = 0; for (auto& b : blocks) if (b.live) ++live;
